@@ -8,6 +8,7 @@ import (
 	"path"
 	"path/filepath"
 	"strings"
+	"sync"
 )
 
 // tempFileSuffix is appended to the file name of a key while its value is written.
@@ -15,6 +16,9 @@ import (
 const tempFileSuffix = ".tmp"
 
 var errInvalidKey = errors.New("invalid key")
+
+// setMutex serializes writes. Two writers of the same key would share the temporary file.
+var setMutex sync.Mutex
 
 type fileStorage struct {
 	dirPath string
@@ -46,6 +50,9 @@ func NewFileStorage(dir string) (Storage, error) {
 // replaced as a whole, and a crash while writing never leaves a
 // partially written value behind.
 func (f *fileStorage) Set(key string, value []byte) error {
+	setMutex.Lock()
+	defer setMutex.Unlock()
+
 	if isTempFileName(key) {
 		return errInvalidKey
 	}
